@@ -267,3 +267,27 @@ def mutate(rng, s):
     if k == "swap" and i + 1 < len(s):
         return s[:i] + s[i + 1] + s[i] + s[i + 2:]
     return s[:i] + rng.choice(HOSTILE) + s[i:]
+
+
+def boundary_year_doc(rng):
+    """a full case citation whose reporter string has candidate editions, dated at an edition boundary"""
+    import datetime
+    from eyecite.tokenizers import EDITIONS_LOOKUP
+
+    keys = _CACHE.setdefault("ed_keys", sorted(k for k, v in EDITIONS_LOOKUP.items() if v and v[0].reporter.source == "reporters"))
+    multi = _CACHE.setdefault("ed_multi", [k for k in keys if len(set(EDITIONS_LOOKUP[k])) > 1])
+    R = rng.choice(multi) if rng.random() < 0.6 else rng.choice(keys)
+    now = datetime.datetime.now().year
+    years = [1599, 1600, now, now + 1, now + 2]
+    for e in EDITIONS_LOOKUP[R]:
+        if e.start is not None:
+            years += [e.start.year - 1, e.start.year, e.start.year + 1]
+        if e.end is not None:
+            years += [e.end.year - 1, e.end.year, e.end.year + 1, e.end.year + 7]
+    y = rng.choice(years)
+    form = rng.random()
+    if form < 0.7:
+        return f"{rng.choice(NAMES)} v. {rng.choice(NAMES)}, {rng.choice([1, 3, 12])} {R} {rng.choice([1, 45, 345])} ({y})."
+    if form < 0.85:
+        return f"{rng.choice(NAMES)} v. {rng.choice(NAMES)} ({y}) {rng.choice([1, 3])} {R} {rng.choice([1, 45])}."
+    return f"See {rng.choice([1, 3, 12])} {R} {rng.choice([1, 45, 345])} ({rng.choice(COURTS)} {y})."
